@@ -44,6 +44,8 @@ def check(ctx: Ctx, ev: Evidence) -> list[Finding]:
     out: list[Finding] = []
     ev.rule("C02-R1", "the nominal trace of every transfer shape x mode is a path of the abstract transition system (definite when missing)", 10)
     ev.rule("C02-R2", "idle is reachable from every reachable abstract state with general inputs (reset excluded)", 10)
+    ev.rule("C02-R3", "admission compares entity ids and sequence numbers by value (the source widens ids to a common width, so a width-sensitive comparison refuses returning PDUs)", 3)
+    ev.rule("C02-R4", "destination path resolution: exactly one of create/truncate on Metadata acceptance, truncate iff the file exists (shared with C05-R5)", 2)
     src, dst = ctx.ats("source"), ctx.ats("dest")
 
     def no_fault(e) -> bool:
@@ -150,6 +152,40 @@ def check(ctx: Ctx, ev: Evidence) -> list[Finding]:
             if not found:
                 out.append(Finding("C02-R1", f"dest handler | nominal {shape} reception, {mode}, closure={closure} | not admitted",
                                    f"no path of the destination handler's transition system receives a fault-free {shape} transfer in {mode} mode (closure={closure}) and returns to idle with {sorted(need)}", "src/cfdppy/handler/dest.py"))
+    # ---------------- R3: id comparisons by value
+    for which, a in (("source", src), ("dest", dst)):
+        seen_k: set[str] = set()
+        for e in a.edges:
+            if e.label[0] != "state_machine" or e.label[1] is None:
+                continue
+            for k, v in e.ch:
+                r = repr(k)
+                if not any(t in r for t in ("pkt.source_entity_id", "pkt.dest_entity_id", "pkt.transaction_seq_num")):
+                    continue
+                if not isinstance(k, tuple) or k[0] not in ("eq0", "eq", "is", "ge"):
+                    continue
+                which_id = next(t for t in ("pkt.source_entity_id", "pkt.dest_entity_id", "pkt.transaction_seq_num") if t in r)
+                by_value = k[0] == "eq0" and f"('a', '{which_id}'), 'value')" in r
+                kk = f"{which} handler | admission compares {which_id} {'by .value' if by_value else 'AS OBJECTS (width-sensitive)'}"
+                if kk in seen_k:
+                    continue
+                seen_k.add(kk)
+                ev.inst("C02-R3", kk, "ok" if by_value else "violation")
+                if not by_value:
+                    out.append(Finding("C02-R3", kk, f"the {which} handler compares {which_id} as an object (UnsignedByteField equality includes the byte width): PDUs carrying the widened id are refused and the transfer never completes", f"src/cfdppy/handler/{which}.py"))
+    # ---------------- R4 (shared with C05-R5)
+    from .c05 import r5_edge
+    seen5: set[str] = set()
+
+    def once5(k: str) -> bool:
+        if k in seen5:
+            return False
+        seen5.add(k)
+        return True
+    for e in dst.edges:
+        if e.label == ("state_machine", "METADATA"):
+            vfs = [(i, x) for i, x in enumerate(e.ev) if x.kind == "env" and x.name.startswith("vfs.")]
+            r5_edge(dst, e, e.ev, vfs, ev, out, once5, "C02-R4")
     # ---------------- R2
     for which, a in (("source", src), ("dest", dst)):
         idle = {i for i in a.expanded if state_of(a, a.h.watch(a.nodes[i])) == "IDLE"}
